@@ -21,6 +21,7 @@ import struct
 import yaml
 from hypothesis import strategies as st
 
+from vf.core import reorder
 from vf.gen import dbenum
 from vf.gen import keys as K
 from vf.ref import pk
@@ -271,15 +272,19 @@ _KEY32 = st.binary(min_size=32, max_size=32)
 def _v1_strategy(mixed: bool = True):
     sizes = st.sampled_from([2048, 2048, 3072, 4096])
 
+    # one key in eight has the public exponent 3 (one exponent byte in the hashed n || e form instead of three)
+    any_e = st.one_of(*([K.rsa_key_desc()] * 7 + [K.rsa_key_desc_e3()]))
+    uniq = lambda d: (d["bits"], d["i"], d.get("e", 65537))  # noqa: E731
+
     def chain(depth):
         if mixed:
-            return st.lists(K.rsa_key_desc(), min_size=depth, max_size=depth, unique_by=lambda d: (d["bits"], d["i"]))
+            return st.lists(any_e, min_size=depth, max_size=depth, unique_by=uniq)
         return sizes.flatmap(lambda b: st.lists(K.rsa_key_desc((b,)), min_size=depth, max_size=depth, unique_by=lambda d: d["i"]))
 
     depth = st.sampled_from([1, 1, 2, 2, 3, 4])
     return st.fixed_dictionaries({
         "chain": depth.flatmap(chain),  # chain[0] = root of the used slot, chain[-1] = signer
-        "others": st.lists(K.rsa_key_desc(), min_size=0, max_size=3, unique_by=lambda d: (d["bits"], d["i"])),
+        "others": st.lists(any_e, min_size=0, max_size=3, unique_by=uniq),
         "used": st.integers(0, 3),
         "build": st.one_of(st.just(0), st.integers(0, 0xFFFFFFFF)),
         "id_key": st.sampled_from(["mainRootCertId", "mainRootCertId", "mainCertChainId"]),
@@ -513,6 +518,8 @@ def materialise(case: dict, root: str) -> Built:
     shutil.rmtree(d, ignore_errors=True)
     os.makedirs(d)
     words = list(opt.get("words", (0, 0)))
+    # the order in which the keys of the configuration mappings are written is drawn with the case (a mapping has no order)
+    order_salt = int(hashlib.sha256(repr(sorted((str(k), repr(v)) for k, v in opt.items())).encode()).hexdigest()[:8], 16)
     tw = TARGET_WORDS[cls["target"]]
     aw = AUTH_WORDS[cls["auth"]]
     cfg: dict = {
@@ -638,7 +645,7 @@ def materialise(case: dict, root: str) -> Built:
     if "v1" in opt:
         v = opt["v1"]
         chain = [dict(x) for x in v["chain"]]
-        others = [dict(x) for x in v["others"] if (x["bits"], x["i"]) not in {(c["bits"], c["i"]) for c in chain}]
+        others = [dict(x) for x in v["others"] if (x["bits"], x["i"], x.get("e", 65537)) not in {(c["bits"], c["i"], c.get("e", 65537)) for c in chain}]
         nroots = 1 + len(others)
         used = int(v["used"]) % nroots
         slots = others[:used] + [chain[0]] + others[used:]
@@ -654,7 +661,7 @@ def materialise(case: dict, root: str) -> Built:
             fn = "chain%d_%d.der" % (used, j)
             _write(os.path.join(d, fn), der)
             cbc["chainCertificate%dFile%d" % (used, j)] = fn
-        _write(os.path.join(d, "cert_block.yaml"), yaml.safe_dump(cbc))
+        _write(os.path.join(d, "cert_block.yaml"), yaml.safe_dump(reorder(cbc, order_salt), sort_keys=False))
         cfg["certBlock"] = "cert_block.yaml"
         put_sign_key(chain[-1])
         bits = [c["bits"] for c in chain]
@@ -663,6 +670,10 @@ def materialise(case: dict, root: str) -> Built:
                    "chain_mixed" if len(set(bits)) > 1 else "chain_uniform"]
         if bits[0] != bits[-1]:
             labels.append("root_size!=signer_size")
+        if any(x.get("e") == 3 for x in slots):
+            labels.append("rsa_e3:root")
+        if any(x.get("e") == 3 for x in chain[1:]):
+            labels.append("rsa_e3:chain")
         if int(v["build"]):
             labels.append("build_number")
     if "v21" in opt:
@@ -693,7 +704,7 @@ def materialise(case: dict, root: str) -> Built:
             if ud:
                 _write(os.path.join(d, "isk_data.bin"), ud)
                 cbc["signCertData"] = "isk_data.bin"
-        _write(os.path.join(d, "cert_block.yaml"), yaml.safe_dump(cbc))
+        _write(os.path.join(d, "cert_block.yaml"), yaml.safe_dump(reorder(cbc, order_salt), sort_keys=False))
         cfg["certBlock"] = "cert_block.yaml"
         signer = isk or roots[used]
         put_sign_key(signer)
@@ -714,7 +725,7 @@ def materialise(case: dict, root: str) -> Built:
         _write(os.path.join(d, "isk_pub.pem"), _pub_pem(_t(isk)))
         _write(os.path.join(d, "issuer_key.pem"), _priv_pem(_t(issuer)))
         cbc = {"selfSigned": bool(v["self_signed"]), "iskPublicKey": "isk_pub.pem", "signPrivateKey": "issuer_key.pem"}
-        _write(os.path.join(d, "cert_block.yaml"), yaml.safe_dump(cbc))
+        _write(os.path.join(d, "cert_block.yaml"), yaml.safe_dump(reorder(cbc, order_salt), sort_keys=False))
         cfg["certBlock"] = "cert_block.yaml"
         if v["add_hash"] is not None:
             cfg["addCertHash"] = bool(v["add_hash"])
@@ -731,6 +742,23 @@ def materialise(case: dict, root: str) -> Built:
             cfg["manifestDigestHashAlgorithm"] = dg
             b.digest_alg = dg
         labels.append("digest:%s" % (dg or "none"))
+    if "certBlock" in cfg and (order_salt >> 2) % 2:
+        # the certificate block configuration lives in a folder of its own (a shared key folder); that folder also holds files with
+        # the names of the image's other inputs and other content: relative names in the image configuration mean the files next to
+        # the image configuration (the folder of a nested configuration is searched last)
+        sub = os.path.join(d, "cb")
+        os.makedirs(sub)
+        shutil.copy(os.path.join(d, "cert_block.yaml"), os.path.join(sub, "cert_block.yaml"))
+        # named relative to the image configuration or by its full path (then the folder SPSDK adds to its search is usable from any cwd)
+        cfg["certBlock"] = "cb/cert_block.yaml" if (order_salt >> 3) % 3 == 0 else os.path.join(sub, "cert_block.yaml")
+        own = {"cert_block.yaml", "root_key.pem", "isk_pub.pem", "isk_data.bin", "issuer_key.pem"}
+        for fn in sorted(os.listdir(d)):
+            src = os.path.join(d, fn)
+            if os.path.isfile(src) and fn not in own and not fn.startswith(("root", "chain")):
+                _write(os.path.join(sub, fn), bytes(b ^ 0x5A for b in open(src, "rb").read()[::-1]))
+        labels.append("certblock_in_subfolder")
+    cfg = reorder(cfg, order_salt)
+    labels.append("cfg_key_order:%d" % (order_salt % 3))
     b.config = cfg
     b.config_path = _write(os.path.join(d, "mbi.yaml"), yaml.safe_dump(cfg, sort_keys=False))
     labels += ["comp:" + cls["comp"], "auth:" + cls["auth"], "target:" + cls["target"], "type:%d" % cls["image_type"]]
